@@ -13,6 +13,8 @@
            negation, zero count ends, countdown re-enters the header read at zero)
            the only skip in the block header is the one by the advertised byte size (no computed skip), and nothing
            else in the deserializer skips bytes
+  BLOCKS   ... and only deserialize_ignored_any asks the block reader to skip size-prefixed blocks (the flag may be a bool or a
+           two-variant enum); the count may be Option<NonZeroUsize> or a plain usize with 0 as the end marker
   NEWTYPE  serde's newtype struct is transparent on both sides (serializer forwards the inner value; deserializer answers
            deserialize_newtype_struct with visit_newtype_struct(self)), and so does every other deserializer that hands
            values to user types (map keys, the enum-hinting wrapper: F38)                 (found F17; shared C01, C20)
@@ -785,8 +787,14 @@ def blocks_rule(ctx):
             sites += 1
             v_ = const_int(xt['args'][1])
             if v_ is None:
-                vs_ = sorted({a[2] for a in origin(x, xt['args'][1]).atoms if a[0] == 'agg'})
-                v_ = vs_[0] if len(vs_) == 1 else None
+                # (through the parameter of a spliced constructor helper: one definition per spliced copy)
+                o_ = origin(x, xt['args'][1])
+                ints_ = [c_ for c_ in o_.consts() if isinstance(c_, int)]
+                vs_ = sorted({a[2] for a in o_.atoms if a[0] == 'agg'})
+                if len(ints_) == 1 and len(o_.atoms) == 1:
+                    v_ = ints_[0]
+                elif len(vs_) == 1 and len(o_.atoms) == 1:
+                    v_ = vs_[0]
             asks = (v_ == ign_value)
             in_ignored = fn_label(x).split('::{closure')[0].endswith('::deserialize_ignored_any')
             if v_ is None or asks != in_ignored:
